@@ -50,7 +50,7 @@ EXPECTED_COUNTERS = ['op:create', 'op:launch', 'op:continue', 'op:execute', 'op:
                      'probe:reply_error', 'persister:none', 'persister:memory', 'persister:pickle', 'loader:custom',
                      'via:loopcomm', 'via:direct']
 PROGRAM_CFG = {'max_steps': 4, 'p_async': 0.6, 'max_awaits': 1, 'rets': ['value', 'stop', 'unsuccessful', 'raise', 'kill'],
-               'effects': ['out', 'status'], 'p_wait': 0.35, 'kwargs': True}
+               'effects': ['out', 'status'], 'p_wait': 0.55, 'kwargs': True}
 
 
 def systematic(tier):
@@ -108,6 +108,24 @@ def random_case(rng, tier):
                 ops.append(['snapshot', rng.choice(made), rng.choice(['mid', 'other'])])
         else:
             ops.append(['restart'])
+    if rng.random() < 0.3 and persister != 'none':
+        # scenario: a process launched without waiting is snapshot under a tag while it waits; later (possibly after a
+        # worker restart) exactly that checkpoint is continued
+        waity = {'kind': 'process', 'inputs': None, 'steps': [
+            {'async': rng.random() < 0.5, 'awaits': [], 'effects': [[{'e': 'out', 'k': 'a', 'v': 1}]],
+             'ret': {'t': 'wait', 'to': 1, 'msg': 'w', 'data': None}},
+            {'async': False, 'awaits': [], 'effects': [[]], 'ret': {'t': 'wait', 'to': 2, 'msg': None, 'data': 1}},
+            {'async': False, 'awaits': [], 'effects': [[{'e': 'out', 'k': 'b', 'v': 2}]], 'ret': {'t': 'value', 'v': 'done'}}]}
+        progs.append(waity)
+        base = len(ops)
+        tag = rng.choice(['mid', 'other'])
+        scenario = [['launch', len(progs) - 1, rng.random() < 0.5, True, 'tagged-pid'], ['snapshot', base, tag]]
+        if rng.random() < 0.4:
+            scenario.append(['restart'])
+        scenario.append(['continue', base, tag, rng.random() < 0.3])
+        if rng.random() < 0.4:
+            scenario.append(['continue', base, tag, False])
+        ops.extend(scenario)
     return {'programs': progs, 'persister': persister, 'loader': rng.choice(['default', 'default', 'custom']),
             'via': rng.choice(['loopcomm', 'loopcomm', 'direct']), 'ops': ops,
             'delay': rng.choice([0, 0, 0.5])}
